@@ -23,6 +23,8 @@ RULE = (
     "format, mode) pair toasty declares. 'workload' / 'pytest': the same contracts installed on the real methods while toasty's own "
     "workflows (quick) and the repository's whole test suite (thorough) run; evaluations counted per call site. "
     "Non-trivial: a buffer case with both defined and undefined pixels inside the rectangle; distinct by spec."
+    ' Also: half of the buffer operations re-use the buffer object of the previous one; persistence histories through one to three Pyra'
+    'midIO handles on one directory; two stand-ins for absent tiles alive side by side.'
 )
 ASSUMPTIONS = ["negative integer pixels and paired-index-array updates are outside the statement (rectangles; zero = undefined)"]
 MODES = ["RGB", "RGBA", "U8", "I16", "I32", "F32", "F64", "F16x3"]
